@@ -600,6 +600,9 @@ pub struct PrintOpts {
     pub noise_seed: Option<u64>,
     /// emit `export` for the main block's final values (histsim)
     pub main_is_module_body: bool,
+    /// define the global list (`export GL = []`); false for later operations of a history,
+    /// which keep using the list exported by the first one
+    pub define_globals: bool,
 }
 
 struct Printer {
@@ -883,7 +886,9 @@ pub fn print(p: &Program, opts: &PrintOpts) -> Printed {
         call_line: vec![0; p.n_calls as usize + 1],
         noise: opts.noise_seed.map(Rng::new),
     };
-    pr.line(0, "export GL = []");
+    if opts.define_globals {
+        pr.line(0, "export GL = []");
+    }
     pr.line(0, "export IDX = (0,)");
     // the argument of a conduit is evaluated exactly once: multi-use goes through a helper
     pr.line(0, "export C_PIPE = |f, a| a -> f");
